@@ -9,7 +9,8 @@
 (*              ipdst, yiaddr, dstmac, chaddr   (octet sequences)           *)
 (*              ipsum_ok, udpsum_ok  checksums recomputed by the harness    *)
 (*              iplen, udplen, paylen, framelen                             *)
-(*              payload_ok  the payload decodes (own walker) and echoes xid *)
+(*              payload_ok  the payload decodes (own walker, END reached)    *)
+(*                          and echoes xid                                   *)
 (***************************************************************************)
 EXTENDS Integers, Sequences, FiniteSets, TLC, Json, IOUtils
 Rec == ndJsonDeserialize(IOEnv.TRACE)
@@ -23,7 +24,9 @@ BcastBit(f) == f \div 32768 = 1
 \* otherwise the assigned address
 C12Dest(e) == e.ipdst = (IF BcastBit(e.flags) THEN Broadcast ELSE e.yiaddr)
 C12Sums(e) == e.ipsum_ok /\ e.udpsum_ok
-C12Lens(e) == /\ e.iplen = 20 + e.udplen /\ e.udplen = 8 + e.paylen /\ e.framelen >= 14 + e.iplen
+\* (an Ethernet frame shorter than 60 octets may be padded; DHCP frames never are that short)
+C12Lens(e) == /\ e.iplen = 20 + e.udplen /\ e.udplen = 8 + e.paylen
+              /\ (IF e.iplen >= 46 THEN e.framelen = 14 + e.iplen ELSE e.framelen >= 14 + e.iplen)
 C12Payload(e) == e.payload_ok
 Shape(e) == IF ~C12Sums(e) THEN (IF ~e.ipsum_ok THEN "ipv4HeaderChecksumWrongOnTheWire" ELSE "udpChecksumWrongOnTheWire")
             ELSE IF ~C12Lens(e) THEN "frameLengthsInconsistentOnTheWire"
